@@ -39,6 +39,15 @@ Section Machine.
     | S k => let '(ms1, s1, g1) := step_all base ti cs ms s (perturb ti g) in run base perturb cs k (S ti) ms1 s1 g1
     end.
 
+  (* two simulations in one process share nothing but the process-wide generator; a schedule says which of them takes its next step
+     (true: the first, false: the other).  The result is the final state of the FIRST simulation *)
+  Fixpoint interleaved (baseA baseB : Z) (csA csB : list comp) (sched : list bool) (tiA : nat) (msA : list mstate) (sA : shared)
+                       (tiB : nat) (msB : list mstate) (sB : shared) (g : gstate) : list mstate * shared :=
+    match sched with
+    | [] => (msA, sA)
+    | true :: t => let '(m1, s1, g1) := step_all baseA tiA csA msA sA g in interleaved baseA baseB csA csB t (S tiA) m1 s1 tiB msB sB g1
+    | false :: t => let '(m1, s1, g1) := step_all baseB tiB csB msB sB g in interleaved baseA baseB csA csB t tiA msA sA (S tiB) m1 s1 g1
+    end.
   (* a component that never reads the process-wide generator *)
   Definition ignores_global (c : comp) : Prop := forall d ti m s g g', fst (cstep c d ti m s g) = fst (cstep c d ti m s g').
   (* a component that only reads the shared state and samples its own distributions *)
